@@ -69,6 +69,17 @@ func scenariosFor(prop string) []scn {
 		// dead-lettering and the nack window must follow source order, not arrival order
 		both(flowParams{Sources: 1, Records: 2, Batch: 1, Dests: 1, AckMenu: okNack, Procs: []procParam{{ID: "pp", Kinds: []string{"p", "e"}}}}, 2, 3)
 		both(flowParams{Sources: 1, Records: 2, Batch: 1, Dests: 1, AckMenu: okNack, Window: 2, Thresh: 1, Procs: []procParam{{ID: "pp", Kinds: []string{"p", "e"}}}}, 2, 3)
+		// a destination that confirms one write in several responses (record by record / in two halves), rejections in the
+		// later ones
+		both(flowParams{Sources: 1, Records: 4, Batch: 4, Dests: 1, AckMenu: []string{"ok", "k:0011", "h:0011", "k:0110", "k:1001"}, Stop: ""}, 1, 2)
+		// the DLQ connector itself fails (its plugin dies) instead of rejecting a record
+		both(flowParams{Sources: 1, Records: 3, Batch: 1, Dests: 1, AckMenu: okNack, DLQMenu: []string{"ok", "err"}, Stop: ""}, 2, 3)
+		// the first processor filters a record, the second one fails an earlier record of the same batch (retry ranges span
+		// the filtered record)
+		both(flowParams{Sources: 1, Records: 6, Batch: 6, Dests: 1, AckMenu: onlyOK, Procs: []procParam{{ID: "p1", Kinds: []string{"p", "p", "p", "f", "p", "p"}}, {ID: "p2", Kinds: []string{"p", "E", "p", "p", "p", "p"}}}}, 1, 2)
+		both(flowParams{Sources: 1, Records: 5, Batch: 5, Dests: 1, AckMenu: onlyOK, Procs: []procParam{{ID: "p1", Kinds: []string{"p", "p", "f", "p", "p"}}, {ID: "p2", Kinds: []string{"p", "f", "p", "f", "p"}}}}, 1, 2)
+		// the DLQ is off (it refuses every rejection and hands the reason back); the reason wraps io.EOF
+		both(flowParams{Sources: 1, Records: 3, Batch: 1, Dests: 1, AckMenu: onlyOK, Window: 1, Thresh: 0, Procs: []procParam{{ID: "pp", Kinds: []string{"p", "eoferr", "p"}}}}, 1, 2)
 		// a source plugin that is slow to take acks off its stream while later flushes release more acks
 		both(flowParams{Sources: 1, Records: 4, Batch: 1, Dests: 1, AckMenu: onlyOK, Bundle: 2, LateAckRecv: true}, 1, 2)
 		both(flowParams{Sources: 1, Records: 4, Batch: 2, Dests: 1, AckMenu: onlyOK, LateCommit: true, LateAckRecv: true}, 1, 2)
@@ -103,7 +114,8 @@ func scenariosFor(prop string) []scn {
 		both(flowParams{Sources: 1, Records: 2, Batch: 2, Dests: 1, AckMenu: shapes, Stop: "force"}, 2, 3)
 		both(flowParams{Sources: 1, Records: 2, Batch: 1, Dests: 2, AckMenu: shapes, Stop: "force"}, 1, 2)
 		both(flowParams{Sources: 1, Records: 2, Batch: 1, Dests: 1, AckMenu: onlyOK, DLQMenu: shapes, Procs: []procParam{{ID: "pp", Kinds: []string{"e", "e"}}}, Stop: "force"}, 2, 3)
-		for _, kinds := range [][]string{{"short", "p", "p"}, {"p", "nil", "p"}, {"p", "posrewrite", "p"}, {"extra", "p", "p"}, {"p", "p", "short"}, {"2", "short", "p"}, {"emptypos", "p", "p"}} {
+		for _, kinds := range [][]string{{"short", "p", "p"}, {"p", "nil", "p"}, {"p", "posrewrite", "p"}, {"extra", "p", "p"}, {"p", "p", "short"}, {"2", "short", "p"}, {"emptypos", "p", "p"},
+			{"f", "short", "p"}, {"f", "f", "short"}, {"multi1pos", "p", "p"}, {"p", "multi0", "p"}, {"2", "e", "short"}} {
 			both(flowParams{Sources: 1, Records: 3, Batch: 3, Dests: 1, AckMenu: okNack, Procs: []procParam{{ID: "pp", Kinds: kinds}}, Stop: "force"}, 1, 2)
 			both(flowParams{Sources: 1, Records: 3, Batch: 3, Dests: 1, AckMenu: onlyOK, NoMatch: []int{1}, Procs: []procParam{{ID: "pp", Kinds: kinds, Cond: "match"}}, Stop: "force"}, 1, 2)
 		}
@@ -115,6 +127,8 @@ func scenariosFor(prop string) []scn {
 			both(flowParams{Sources: 1, Records: 2, Batch: 1, Dests: 1, AckMenu: []string{"ok", "err"}, ReadMenu: []string{"ok", "err", "fatal"}, Retries: retries}, 2, 3)
 		}
 		both(flowParams{Sources: 1, Records: 2, Batch: 1, Dests: 1, AckMenu: okNack, DLQMenu: okNack, Retries: 1}, 2, 3)
+		// the DLQ connector itself fails while a rejected record is written to it: a DLQ write failure, fatal
+		both(flowParams{Sources: 1, Records: 2, Batch: 1, Dests: 1, AckMenu: okNack, DLQMenu: []string{"ok", "err"}, Retries: 2}, 2, 3)
 		both(flowParams{Sources: 1, Records: 3, Batch: 1, Dests: 1, AckMenu: okNack, Window: 2, Thresh: 1, Retries: 1}, 2, 3)
 		both(flowParams{Sources: 1, Records: 2, Batch: 1, Dests: 1, AckMenu: []string{"ok", "err"}, ReadMenu: []string{"ok", "err", "fatal"}, Stop: "stopwait", Retries: 2}, 2, 3)
 		both(flowParams{Sources: 1, Records: 2, Batch: 1, Dests: 1, AckMenu: []string{"ok", "err", "nack"}, DLQMenu: okNack, ReadMenu: []string{"ok", "err", "fatal"}, Stop: "stopall", Retries: 2}, 2, 3)
